@@ -407,6 +407,24 @@ def build_menu(c, sc, node, pool_sl, u):
                     pass
                 return [tr.doc, *tr.steps]
             add({"op": "Transform.add/remove_mark(shared mark)", "from": a, "to": b, "mark": mj}, tr_mark)
+        if len(live_marks) >= 2 and b - a >= 2:
+            def tr_mark2(a=a, b=b):
+                """Several mark operations through ONE Transform on touching ranges: the steps and documents it
+                recorded for the earlier calls are values handed out and must not change."""
+                tr = A.Transform(node)
+                mid = a + 1
+                recorded = []
+                for (x, y, mk) in ((a, mid, live_marks[0][1]), (mid, b, live_marks[1][1]), (a, b, live_marks[0][1])):
+                    try:
+                        tr.add_mark(x, y, mk)
+                    except ValueError:
+                        continue
+                    now = [jkey(A.step_desc(st)) for st in tr.steps]
+                    if now[: len(recorded)] != recorded:
+                        raise AssertionError("accumulator-shrunk: a step recorded by an earlier add_mark call changed")
+                    recorded = now
+                return [tr.doc, *tr.steps]
+            add({"op": "Transform.add_mark x3 (touching ranges, one Transform)", "from": a, "to": b}, tr_mark2)
     # H. DOM round trip
     def dom():
         from prosemirror.model import DOMParser, DOMSerializer
